@@ -38,6 +38,10 @@ ASSUMPTIONS = [
     "<= 0 everywhere) is not generated: the code neither documents nor handles it (reported to the lead as an observation)",
     "numpy.linalg.svd / norm / dot are trusted for the certificates (gradient, residual, null-space projector)",
     "scipy.optimize.nnls raising RuntimeError('Maximum number of iterations reached') is counted as inconclusive for that case",
+    "while finding C11-nnls-scipy-nonoptimal is open, nnls cases on which scipy.optimize.nnls itself (called directly on the "
+    "documented system [W; alpha L]/max(b), [b; 0]/max(b)) returns a point violating the same KKT certificate are labelled "
+    "excluded_known and not judged (about 0.03% of the cases: zero column of W + diagonal Tikhonov matrix); the stored probe "
+    "bypasses this gate",
 ]
 TOLERANCES = {
     "sart x / convergence list": "1e-10 * scale; same arithmetic on both sides up to summation order. scale = largest |x| over all "
